@@ -134,6 +134,7 @@ type ContractSet struct {
 	Tables  []*TableFact
 	StableFields []*StableField
 	GlobalsRO    []*GlobalsReadonly
+	InitArgs  []*InitArg
 	Builtins  []*BuiltinSpec
 	FrameSets map[string][]string
 	Slots   map[string]*FuncContract // contracts of function-valued struct fields: "pkg.Type.field"
@@ -248,6 +249,16 @@ func (cs *ContractSet) parseFile(path, pkg string) error {
 			}
 			cur = &FuncContract{Key: key, Pkg: pkg, Invariants: map[int][]*Clause{}, Decreases: map[int]*Clause{}, File: path, Line: line}
 			cs.Funcs[key] = cur
+			lastText = nil
+		case "initarg":
+			// initarg[P] name = `text`   (raw string: everything between the first and last back-quote)
+			eq := strings.Index(rest, "=")
+			a, z := strings.Index(rest, "`"), strings.LastIndex(rest, "`")
+			if eq < 0 || a < eq || z <= a {
+				return fmt.Errorf("%s:%d: initarg needs name = `text`", path, line)
+			}
+			cs.InitArgs = append(cs.InitArgs, &InitArg{Global: strings.TrimSpace(rest[:eq]), Text: rest[a+1 : z], Props: props, Pkg: pkg, File: path, Line: line})
+			cur = nil
 			lastText = nil
 		case "builtin":
 			b, err := parseBuiltinSpec(rest, props, path, line)
